@@ -1,7 +1,7 @@
 #!/bin/bash
 # usage: seedcheck.sh <outdir with patch.diff + zz_seed_demo_test.go> <pkgdir relative to repo> <TestName regex> <check ids...>
 # 1. confirms the seeded change in a scratch worktree (demo fails with it, passes without, package tests pass)
-# 2. applies it to /repo, runs the given checks (quick), undoes it.
+# 2. runs the given checks (quick) against it through VERIF_EXTRA_OVERLAY (the /repo working tree is not touched).
 export GOFLAGS=-mod=mod GOPROXY=off GOSUMDB=off GOTOOLCHAIN=local
 OUT="$1"; PKG="$2"; TEST="$3"; shift 3
 WT=/tmp/sv-$$
@@ -18,10 +18,25 @@ git apply -R "$OUT/patch.diff"
 mv /tmp/sv-$$.demo "$PKG/zz_seed_demo_test.go"
 if go test -count=1 -run "$TEST" "./$PKG/" > /tmp/sv-$$.without.log 2>&1; then echo "SEED: demo passes without the change (good)"; else echo "SEED: demo FAILS without the change (bad seed)"; tail -5 /tmp/sv-$$.without.log; fi
 rm -f /tmp/sv-$$.*
+# 2. the checks run against the change through an extra overlay (patched copies of the touched files): /repo itself is
+#    never modified, other checks may be running from it at the same time
+OVD=/tmp/sv-ov-$$
+mkdir -p "$OVD"
+git apply "$OUT/patch.diff" || exit 2
+python3 - "$WT" "$OVD" > "$OVD/ov.json" <<'PY'
+import json, os, shutil, subprocess, sys
+wt, ovd = sys.argv[1], sys.argv[2]
+files = subprocess.check_output(["git", "-C", wt, "diff", "--name-only"]).decode().split()
+rep = {}
+for i, f in enumerate(files):
+    dst = os.path.join(ovd, "%d_%s" % (i, os.path.basename(f)))
+    shutil.copy(os.path.join(wt, f), dst)
+    rep["/repo/" + f] = dst
+json.dump({"Replace": rep}, sys.stdout)
+PY
 cd /verif
-git -C /repo apply "$OUT/patch.diff" || exit 2
 for c in "$@"; do
-  ./run.sh "$c" quick > /tmp/sv-check.log 2>&1; rc=$?
-  echo "CHECK $c quick: exit $rc"; grep "key=" /tmp/sv-check.log | cut -c1-220 | head -4
+  VERIF_EXTRA_OVERLAY="$OVD/ov.json" ./run.sh "$c" quick > /tmp/sv-check-$$.log 2>&1; rc=$?
+  echo "CHECK $c quick: exit $rc"; grep "key=" /tmp/sv-check-$$.log | cut -c1-220 | head -4
 done
-git -C /repo checkout -- .
+rm -rf "$OVD" /tmp/sv-check-$$.log
